@@ -941,14 +941,18 @@ def p_compilerDirective(p):
             if os.path.dirname(p.parser.file):
                 fname = os.path.join(os.path.dirname(p.parser.file),
                                      fname)
+        if os.path.abspath(fname) in p.parser.mofcomp.files_in_progress():
+            raise MOFParseError(
+                msg=_format("Recursive inclusion of MOF file {0!A}", fname),
+                parser_token=p)
         p.parser.mofcomp.compile_file(fname, p.parser.target_namespace)
 
     elif directive == 'namespace':
         # parse the param to separate out namespace from other wbemuri pieces
         m = WBEM_URI_NAMESPACEPATH_REGEXP.match(param)
-        ns_type = m.group(1) or None
-        host = m.group(2) or None
-        namespace = m.group(3) or None
+        ns_type = m.group(1) or None if m else None
+        host = m.group(2) or None if m else None
+        namespace = m.group(3) or None if m else None
         if m is None or ns_type or host or namespace is None:
             raise MOFParseError(
                 msg=_format(
@@ -2827,6 +2831,7 @@ class MOFCompiler:
 
         self.conn = conn  # Only used for closing it.
         self._log_func = log_func
+        self._files_in_progress = []
 
         self.parser = _yacc(verbose)
 
@@ -3123,10 +3128,19 @@ class MOFCompiler:
                 raise OSError(
                     _format("No such file: {0!A}", filename))
             filename = rfilename
-        with open(filename, encoding='utf-8') as f:
-            mof = f.read()
+        try:
+            with open(filename, encoding='utf-8') as f:
+                mof = f.read()
+        except UnicodeDecodeError as exc:
+            raise MOFParseError(
+                msg=_format("MOF file {0!A} is not UTF-8 encoded: {1}",
+                            filename, exc))
 
-        return self.compile_string(mof, ns, filename=filename)
+        self._files_in_progress.append(os.path.abspath(filename))
+        try:
+            return self.compile_string(mof, ns, filename=filename)
+        finally:
+            self._files_in_progress.pop()
 
     def find_mof(self, classname):
         """
